@@ -40,6 +40,21 @@ def freeze(o, depth=0, seen=None):
     if id(o) in seen or depth > 6:
         return ("ref", type(o).__name__)
     seen = seen | {id(o)}
+    tn = type(o).__name__
+    if tn in ("ShellMutableSet", "ShellMutableMap", "ShellMutableSequence", "LinearSet", "LazySetCombination", "SimpleDict"):
+        # dict(...) / set(...) evaluated under CrossHair's tracing are proxy containers: unpack them with tracing switched back on
+        # (the snapshot itself runs untraced), then snapshot the plain copy -- otherwise they would be compared by identity only
+        from crosshair.tracers import ResumedTracing
+        with ResumedTracing():
+            if hasattr(o, "keys"):
+                plain = {k: o[k] for k in list(o.keys())}
+            else:
+                plain = list(o)
+        if isinstance(plain, dict):
+            return ("dict", tuple(sorted(((repr(k) if not isinstance(k, str) else k), freeze(v, depth + 1, seen)) for k, v in plain.items())))
+        if "Set" in tn:
+            return ("set", tuple(sorted(repr(x) for x in plain)))
+        return ("list", tuple(freeze(v, depth + 1, seen) for v in plain))
     if isinstance(o, dict):
         return ("dict", tuple(sorted(((repr(k) if not isinstance(k, str) else k), freeze(v, depth + 1, seen)) for k, v in o.items())))
     if isinstance(o, (list, tuple)):
